@@ -10,7 +10,7 @@ LEVEL = "exploration"
 RULE = ("C01-style generated programs without recursion and without evidence (facts, probabilistic facts incl. "
         "duplicates and probability 0/1, annotated disjunctions with/without bodies, probabilistic rules, several "
         "clauses per head, body disjunctions, stratified negation - every third program is drawn with many negative "
-        "body literals; 1-3 ground or non-ground positive queries); programs whose predicate graph is recursive are "
+        "body literals and every third program gets two or three extra clauses over fresh probabilistic facts whose bodies list the same atoms in the same order with different polarities and whose heads have equal distributions (same or different head atoms, deterministic / probabilistic / two-headed); 1-3 ground or non-ground positive queries); programs whose predicate graph is recursive are "
         "dropped. The program text is written to a file and problog.tasks.bayesnet.main "
         "itself is run on it (its LogicDAG.createFrom(label_all=True, keep_order=True, ...) call and its "
         "formula_to_bn call are wrapped by recording spies to get at the PGM and at swallowed exceptions); "
@@ -206,12 +206,78 @@ def _in_domain(prog):
     return not any(f.startswith("rec:") for f in gp.features(prog))
 
 
+SIGN_ATOMS = [["va", []], ["vb", []], ["vc", []]]
+
+
+def _sign_variant_programs(base_strategy):
+    """A generated program plus two or three clauses whose bodies list the same atoms in the same order with
+    different polarities and whose heads have the same distribution, e.g. 'w1 :- va, \\+vb.  w1 :- \\+va, vb.' or
+    '0.6::w1 :- va, vb.  0.6::w2 :- va, \\+vb.'.  The body atoms are fresh probabilistic facts (so the negations
+    cannot break stratification), the heads are fresh atoms (one shared head or one per clause, optionally a
+    second AD head, optionally a rule on top of two heads); all new heads are queried."""
+    from hypothesis import strategies as st
+
+    @st.composite
+    def build(draw):
+        base = draw(base_strategy)
+        body = [s for s in base if s[0] != "query"]
+        queries = [s for s in base if s[0] == "query"]
+        natoms = draw(st.integers(2, 3))
+        atoms = SIGN_ATOMS[:natoms]
+        if draw(st.booleans()):
+            atoms = list(reversed(atoms))
+        facts = [["pfact", draw(st.sampled_from(gp.PROB_GRID[1:-1])), a] for a in atoms]
+        nvar = draw(st.integers(2, 3))
+        signs = []
+        tries = 0
+        while len(signs) < nvar and tries < 20:
+            tries += 1
+            sg = [draw(st.booleans()) for _ in atoms]
+            if sg not in signs:
+                signs.append(sg)
+        same_head = draw(st.booleans())
+        prob = draw(st.sampled_from([None, None, "0.6", "0.25", "0.9"]))
+        extra_head = draw(st.sampled_from([None, None, "0.3", "0.1"])) if prob is not None else None
+        rules = []
+        heads = []
+        for i, sg in enumerate(signs):
+            h = ["w1", []] if same_head else ["w%d" % (i + 1), []]
+            lits = [[bool(n), a[0], a[1]] for n, a in zip(sg, atoms)]
+            if prob is None:
+                rules.append(["rule", h, lits])
+            elif extra_head is None:
+                rules.append(["ad", [[prob, h]], lits])
+            else:
+                rules.append(["ad", [[prob, h], [extra_head, ["x%d" % (i + 1), []]]], lits])
+                heads.append(["x%d" % (i + 1), []])
+            if h not in heads:
+                heads.append(h)
+        # something of the program may sit on top of the new heads
+        top = []
+        if draw(st.integers(0, 2)) == 0 and len(heads) >= 2:
+            top.append(["rule", ["t1", []], [[False, heads[0][0], []], [draw(st.booleans()), heads[1][0], []]]])
+            heads.append(["t1", []])
+        new = facts + rules + top
+        if draw(st.booleans()):
+            prog = body + new
+        else:
+            prog = new + body
+        qs = [["query", h, False] for h in heads]
+        keep = queries[:draw(st.integers(0, len(queries)))]
+        return prog + qs + keep
+
+    return build()
+
+
 def _strategy():
     from hypothesis import strategies as st
 
     kw = dict(allow_rec=False, allow_evidence=False, allow_neg_query=False)
-    # every third program is drawn with many negative body literals
-    return st.one_of(gp.programs(**kw), gp.programs(**kw), gp.programs(neg_bias=True, **kw)).filter(_in_domain).map(
+    plain = gp.programs(**kw)
+    small = gp.programs(max_preds=2, max_clauses=2, **kw)
+    # a third of the programs is drawn with many negative body literals, a third gets a pair of clauses that
+    # differ only in the polarity of their body literals
+    return st.one_of(plain, gp.programs(neg_bias=True, **kw), _sign_variant_programs(small)).filter(_in_domain).map(
         lambda p: {"prog": p})
 
 
